@@ -205,6 +205,9 @@ class global_variables():
 
         self.dt = 1/self.fs
 
+        if N is None:
+            N = self.N  # a slot count already in force: `t`, `dw` and `w` must follow the new rates
+
         if N is not None:
             self.N = N
             self.t = np.linspace(0, N*self.sps*self.dt, N*self.sps, endpoint=True)
